@@ -18,8 +18,8 @@
    meaning: the loop lemmas take the translated loop bodies as they are generated
    and compare them with the steps of the model. *)
 From Coq Require Import List Arith Bool NArith ZArith Lia.
-From Pcfg Require Import KernelRt OmenSpec OmenLevel OmenKeyspace OmenRt OmenLevelProofs OmenKeyspaceProofs
-  OmenLevelGenProofs.
+From Pcfg Require Import KernelRt OmenSpec OmenLevel OmenKeyspace OmenRt OmenRtProofs OmenLevelProofs
+  OmenKeyspaceProofs.
 From PcfgGen Require Import OmenKeyspace_gen.
 Import ListNotations.
 
@@ -411,4 +411,293 @@ Proof.
   - rewrite EE. cbn [bind]. rewrite Hlet. cbv zeta. fold step.
     destruct (fold_left step (te_next e) (0%N, c)) as [v cE] eqn:EFold. cbn [fst snd] in *.
     apply FIN; assumption.
+Qed.
+
+(* from fully related caches to fully related caches *)
+Theorem gen_rec_calc_keyspace_eq T : closedb T = true -> forall k, 1 <= k ->
+  forall fuel kc c lvl ip e, k <= fuel -> find_entry ip (tt_grammar T) = Some e -> krel kc c ->
+  exists kc',
+    py_rec_calc_keyspace fuel T kc (Z.of_nat lvl) (Z.of_nat k) ip = Ok (Z.of_N (fst (rec_ks T k c lvl ip)), kc') /\
+    krel kc' (snd (rec_ks T k c lvl ip)).
+Proof.
+  intros CL k Hk fuel kc c lvl ip e Hf HE HR.
+  destruct (gen_rec_le T CL k Hk fuel kc c lvl ip e Hf HE) as (kc' & E & R & F).
+  - intros ip' k2 lvl' _. apply HR.
+  - exists kc'. split; [exact E|]. intros ip' k2 lvl'. destruct (Nat.le_gt_cases k2 k) as [H|H].
+    + now apply R.
+    + rewrite F by lia. rewrite rec_ks_frame by exact H. apply HR.
+Qed.
+
+(* ------------------------------------------------------------------ *)
+(* loops with an early `return`: a fold over a model state with a sticky
+   stop flag                                                            *)
+(* ------------------------------------------------------------------ *)
+Lemma fold_left_stuck {X M : Type} (stop : M -> bool) (step : M -> X -> M) :
+  (forall m x, stop m = true -> step m x = m) ->
+  forall l m, stop m = true -> fold_left step l m = m.
+Proof.
+  intros Hs. induction l as [|x l IH]; intros m Hm; cbn [fold_left]; [reflexivity|].
+  rewrite (Hs m x Hm). now apply IH.
+Qed.
+
+Lemma mfor_fold_stop {X R St M : Type} (Rel : St -> M -> Prop) (stop : M -> bool) (Fin : M -> R -> Prop)
+      (step : M -> X -> M) (body : X -> St -> res (ctl R St)) (k : St -> res R) :
+  (forall m x, stop m = true -> step m x = m) ->
+  forall l m0 s0, Rel s0 m0 -> stop m0 = false ->
+    (forall pre x post s, l = pre ++ x :: post -> Rel s (fold_left step pre m0) -> stop (fold_left step pre m0) = false ->
+       if stop (step (fold_left step pre m0) x)
+       then exists r, body x s = Ok (Return r) /\ Fin (step (fold_left step pre m0) x) r
+       else exists s', body x s = Ok (Continue s') /\ Rel s' (step (fold_left step pre m0) x)) ->
+    if stop (fold_left step l m0)
+    then exists r, mfor l body s0 k = Ok r /\ Fin (fold_left step l m0) r
+    else exists s', mfor l body s0 k = k s' /\ Rel s' (fold_left step l m0).
+Proof.
+  intros Hs. induction l as [|x l IH]; intros m0 s0 HR H0 Hb; cbn [mfor fold_left].
+  - rewrite H0. exists s0. split; [reflexivity | exact HR].
+  - specialize (Hb [] x l s0 eq_refl HR H0) as Hx. cbn [fold_left] in Hx.
+    destruct (stop (step m0 x)) eqn:E.
+    + destruct Hx as (r & Eb & HF). rewrite Eb. rewrite (fold_left_stuck stop step Hs l _ E), E.
+      exists r. split; [reflexivity | exact HF].
+    + destruct Hx as (s' & Eb & HR'). rewrite Eb. apply IH; [exact HR' | exact E|].
+      intros pre y post s Hl. apply (Hb (x :: pre) y post s). now rewrite Hl.
+Qed.
+
+Lemma mfor_map {X Y R St : Type} (f : X -> Y) (body : Y -> St -> res (ctl R St)) (k : St -> res R) :
+  forall l s, mfor (map f l) body s k = mfor l (fun x => body (f x)) s k.
+Proof.
+  induction l as [|x l IH]; intro s; cbn [map mfor]; [reflexivity|].
+  destruct (body (f x) s) as [[s'|v]|e]; [apply IH | reflexivity | reflexivity].
+Qed.
+
+(* range(1, max_level + 1) and enumerate(ln_lookup) as the model walks them *)
+Lemma zrange_seq ml : zrange 1 (Z.of_nat ml + 1) = map Z.of_nat (seq 1 ml).
+Proof.
+  unfold zrange. replace (Z.to_nat (Z.of_nat ml + 1 - 1)) with ml by lia.
+  rewrite <- seq_shift, map_map. apply map_ext. intro i. lia.
+Qed.
+
+Lemma zenumerate_len_levels T :
+  zenumerate (tt_ln T) = map (fun p : nat * nat => ((Z.of_nat (fst p) - 1)%Z, snd p)) (len_levels T).
+Proof.
+  unfold zenumerate, len_levels. generalize 0 as a. induction (tt_ln T) as [|x l IH]; intro a; [reflexivity|].
+  cbn [length seq map combine fst snd]. rewrite IH. f_equal. f_equal. lia.
+Qed.
+
+Lemma len_levels_le T len li : In (len, li) (len_levels T) -> len <= length (tt_ln T).
+Proof. unfold len_levels. intro H. apply in_combine_l in H. apply in_seq in H. lia. Qed.
+
+Lemma find_entry_of_In g e : In e g -> exists e0, find_entry (te_key e) g = Some e0.
+Proof.
+  intro H. destruct (find_entry (te_key e) g) as [e0|] eqn:E; [now exists e0|].
+  exfalso. exact (ol_find_entry_None g _ E e H eq_refl).
+Qed.
+
+(* the Counter while a level is being summed: the levels listed so far, then this level once touched *)
+Lemma dfind_counter_of_absent D L : ~ In L (map fst D) -> dfind Z.eqb (Z.of_nat L) (counter_of D) = None.
+Proof.
+  induction D as [|[L' v] D IH]; intro H; cbn [counter_of map dfind fst snd]; [reflexivity|].
+  cbn [map fst] in H. rewrite Zeqb_nat. destruct (Nat.eqb_spec L' L) as [E|E]; [exfalso; apply H; now left|].
+  apply IH. intro H'. apply H. now right.
+Qed.
+
+Lemma counter_of_app a b : counter_of (a ++ b) = counter_of a ++ counter_of b.
+Proof. apply map_app. Qed.
+
+(* ------------------------------------------------------------------ *)
+(* calc_omen_keyspace = calc_keyspace (with `>= 0` and `<`)             *)
+(* ------------------------------------------------------------------ *)
+
+(* between two levels: the Counter is the list of listed levels, the caches are related *)
+Definition rel_ks (s : counter * kcache) (st : ks_state) : Prop :=
+  fst s = counter_of (ks_done st) /\ krel (snd s) (ks_cache st).
+
+(* inside level L, D being the levels listed before *)
+Definition rel_lv (D : list (nat * N)) (L : nat) (s : counter * kcache) (lv : lv_state) : Prop :=
+  fst s = counter_of D ++ (if lv_touched lv then [(Z.of_nat L, Z.of_N (lv_sum lv))] else []) /\
+  krel (snd s) (lv_cache lv) /\
+  (lv_touched lv = false -> lv_sum lv = 0%N).
+
+Lemma ks_step_len_stuck T maxks len_le ip lmi st x : lv_stop st = true -> ks_step_len T maxks len_le ip lmi st x = st.
+Proof. intro H. unfold ks_step_len. destruct x. now rewrite H. Qed.
+Lemma ks_step_ip_stuck T maxks s l level st x : lv_stop st = true -> ks_step_ip T maxks s l level st x = st.
+Proof. intro H. unfold ks_step_ip. now rewrite H. Qed.
+Lemma ks_step_level_stuck T maxks s l st x : ks_stopped st = true -> ks_step_level T maxks s l st x = st.
+Proof. intro H. unfold ks_step_level. now rewrite H. Qed.
+
+Theorem gen_calc_omen_keyspace_eq T ml maxks fuel kc c :
+  closedb T = true -> length (tt_ln T) < fuel -> krel kc c ->
+  exists kc',
+    py_calc_omen_keyspace fuel T kc (Z.of_nat ml) (Z.of_N maxks) =
+      Ok (counter_of (ks_done (calc_keyspace T ml maxks false false c)), kc') /\
+    krel kc' (ks_cache (calc_keyspace T ml maxks false false c)).
+Proof.
+  intros CL Hf HR. unfold py_calc_omen_keyspace. cbv zeta. rewrite zrange_seq, mfor_map.
+  rewrite zenumerate_len_levels. unfold calc_keyspace.
+  set (st0 := mk_ks_state [] c false).
+  match goal with |- context [mfor (seq 1 ml) ?body ?s0 ?k] =>
+    pose proof (mfor_fold_stop rel_ks ks_stopped (fun st r => rel_ks r st) (ks_step_level T maxks false false)
+                  body k (ks_step_level_stuck T maxks false false) (seq 1 ml) st0 s0) as HO end.
+  cbv beta in HO.
+  match type of HO with ?A -> ?B -> ?C -> ?D => assert (HD : D) end.
+  { apply HO; clear HO; [split; [reflexivity | exact HR] | reflexivity |].
+    (* one level *)
+    intros pre L post [ks kc0] Hsplit [R1 R2] Hst. cbn [fst snd] in R1, R2.
+    set (st := fold_left (ks_step_level T maxks false false) pre st0) in *.
+    assert (Hfresh : ~ In L (map fst (ks_done st))).
+    { intro HI. apply in_map_iff in HI. destruct HI as ([L' v] & E & HI). cbn [fst] in E. subst L'.
+      apply ks_done_range in HI. destruct HI as [[]|HI].
+      pose proof (seq_NoDup ml 1) as ND. rewrite Hsplit in ND. apply NoDup_remove_2 in ND. apply ND. apply in_or_app. now left. }
+    unfold ks_step_level. rewrite Hst. cbn [ks_stopped]. unfold ks_level.
+    set (lv0 := mk_lv_state 0%N false (ks_cache st) false). set (D := ks_done st) in *.
+    match goal with |- context [mfor (tt_grammar T) ?body ?s0 ?k] =>
+      pose proof (mfor_fold_stop (rel_lv D L) lv_stop (fun lv r => exists s, r = Return s /\ rel_lv D L s lv)
+                    (ks_step_ip T maxks false false L) body k (ks_step_ip_stuck T maxks false false L)
+                    (tt_grammar T) lv0 s0) as HM end.
+    cbv beta in HM.
+    match type of HM with ?A -> ?B -> ?C -> ?D => assert (HD : D) end.
+    { apply HM; clear HM; [unfold rel_lv; cbn [fst snd lv0 lv_touched lv_sum lv_cache]; rewrite app_nil_r; auto | reflexivity |].
+      (* one initial n-gram *)
+      intros pre2 e post2 [ks1 kc1] Hsplit2 (Q1 & Q2 & Q3) Hst2. cbn [fst snd] in Q1, Q2.
+      set (lv := fold_left (ks_step_ip T maxks false false L) pre2 lv0) in *.
+      assert (Hin : In e (tt_grammar T)) by (rewrite Hsplit2; apply in_or_app; right; now left).
+      unfold ks_step_ip. rewrite Hst2. unfold ip_guard.
+      destruct (0 <=? Z.of_nat L - Z.of_nat (te_ip e))%Z eqn:EG.
+      2:{ rewrite Hst2. eexists. split; [reflexivity|]. unfold rel_lv. auto. }
+      apply Z.leb_le in EG. set (lmi := Z.to_nat (Z.of_nat L - Z.of_nat (te_ip e))).
+      replace (Z.of_nat L - Z.of_nat (te_ip e))%Z with (Z.of_nat lmi) by (unfold lmi; lia).
+      rewrite mfor_map.
+      match goal with |- context [mfor (len_levels T) ?body ?s0 ?k] =>
+        pose proof (mfor_fold_stop (rel_lv D L) lv_stop (fun lv r => exists s, r = Return (Return s) /\ rel_lv D L s lv)
+                      (ks_step_len T maxks false (te_key e) lmi) body k (ks_step_len_stuck T maxks false (te_key e) lmi)
+                      (len_levels T) lv s0) as HI end.
+      cbv beta in HI.
+      match type of HI with ?A -> ?B -> ?C -> ?D => assert (HD : D) end.
+      { apply HI; clear HI; [unfold rel_lv; auto | exact Hst2 |].
+        (* one length *)
+        intros pre3 [len li] post3 [ks2 kc2] Hsplit3 (P1 & P2 & P3) Hst3. cbn [fst snd] in P1, P2 |- *.
+        set (lv' := fold_left (ks_step_len T maxks false (te_key e) lmi) pre3 lv) in *.
+        assert (Hlen : len <= length (tt_ln T))
+          by (apply (len_levels_le T len li); rewrite Hsplit3; apply in_or_app; right; now left).
+        unfold ks_step_len. rewrite Hst3. unfold len_skipped.
+        replace (Z.of_nat len - 1 + 1)%Z with (Z.of_nat len) by lia. rewrite Zltb_nat.
+        destruct (Nat.ltb len (tt_ngram T)) eqn:ES.
+        { rewrite Hst3. eexists. split; [reflexivity|]. unfold rel_lv. auto. }
+        apply Nat.ltb_ge in ES. rewrite Zleb_nat.
+        destruct (Nat.leb li lmi) eqn:EL.
+        2:{ rewrite Hst3. eexists. split; [reflexivity|]. unfold rel_lv. auto. }
+        apply Nat.leb_le in EL.
+        replace (Z.of_nat lmi - Z.of_nat li)%Z with (Z.of_nat (lmi - li)) by lia.
+        replace (Z.of_nat len - Z.of_nat (tt_ngram T) + 1)%Z with (Z.of_nat (len - tt_ngram T + 1)) by lia.
+        destruct (find_entry_of_In _ _ Hin) as (e0 & He0).
+        destruct (gen_rec_calc_keyspace_eq T CL (len - tt_ngram T + 1) ltac:(lia) fuel kc2 (lv_cache lv') (lmi - li)
+                    (te_key e) e0 ltac:(lia) He0 P2) as (kc3 & E3 & R3).
+        rewrite E3. cbn [bind]. cbv zeta.
+        set (r := rec_ks T (len - tt_ngram T + 1) (lv_cache lv') (lmi - li) (te_key e)) in *.
+        cbn [lv_stop lv_sum lv_touched lv_cache].
+        assert (HC : cnt_set ks2 (Z.of_nat L) (cnt_get ks2 (Z.of_nat L) + Z.of_N (fst r)) =
+                     counter_of D ++ [(Z.of_nat L, Z.of_N (lv_sum lv' + fst r))]).
+        { rewrite P1. unfold cnt_set, cnt_get. pose proof (dfind_counter_of_absent D L Hfresh) as HA.
+          destruct (lv_touched lv') eqn:ET.
+          - rewrite (dfind_app_absent Z.eqb Zeqb_eq) by exact HA. rewrite (dset_last Z.eqb Zeqb_eq) by exact HA.
+            do 3 f_equal. lia.
+          - rewrite app_nil_r, HA. rewrite (dset_absent Z.eqb) by exact HA. rewrite (P3 eq_refl).
+            do 3 f_equal. }
+        rewrite HC. unfold cnt_get. rewrite (dfind_app_absent Z.eqb Zeqb_eq) by (apply dfind_counter_of_absent; exact Hfresh).
+        replace (Z.of_N maxks <? Z.of_N (lv_sum lv' + fst r))%Z with (N.ltb maxks (lv_sum lv' + fst r))
+          by (destruct (N.ltb_spec maxks (lv_sum lv' + fst r)); symmetry; [apply Z.ltb_lt | apply Z.ltb_ge]; lia).
+        destruct (N.ltb maxks (lv_sum lv' + fst r)); eexists; (split; [reflexivity|]).
+        - eexists. split; [reflexivity|]. unfold rel_lv. cbn [fst snd lv_touched lv_sum lv_cache]. split; [reflexivity|]. split; [exact R3 | discriminate].
+        - unfold rel_lv. cbn [fst snd lv_touched lv_sum lv_cache]. split; [reflexivity|]. split; [exact R3 | discriminate]. }
+      clear HI. set (lvE := fold_left (ks_step_len T maxks false (te_key e) lmi) (len_levels T) lv) in *.
+      destruct (lv_stop lvE).
+      - destruct HD as (r & E & s & -> & Hs). rewrite E. eexists. split; [reflexivity|]. now exists s.
+      - destruct HD as ([ks' kc'] & E & Hs). rewrite E. eexists. split; [reflexivity | exact Hs]. }
+    clear HM. set (lvE := fold_left (ks_step_ip T maxks false false L) (tt_grammar T) lv0) in *.
+    destruct (lv_stop lvE).
+    - destruct HD as (r & E & s & -> & (S1 & S2 & S3)). rewrite E. eexists. split; [reflexivity|].
+      split; cbn [ks_done ks_cache]; [|exact S2]. rewrite S1. destruct (lv_touched lvE); [now rewrite counter_of_app | now rewrite app_nil_r].
+    - destruct HD as ([ks' kc'] & E & (S1 & S2 & S3)). rewrite E. cbn [fst snd] in S1, S2. eexists. split; [reflexivity|].
+      split; cbn [fst snd ks_done ks_cache]; [|exact S2]. rewrite S1. destruct (lv_touched lvE); [now rewrite counter_of_app | now rewrite app_nil_r]. }
+  clear HO. set (stE := fold_left (ks_step_level T maxks false false) (seq 1 ml) st0) in *.
+  destruct (ks_stopped stE).
+  - destruct HD as ([ks' kc'] & E & (S1 & S2)). rewrite E. cbn [fst snd] in S1, S2. exists kc'. now rewrite S1.
+  - destruct HD as ([ks' kc'] & E & (S1 & S2)). rewrite E. cbn [fst snd] in S1, S2. exists kc'. now rewrite S1.
+Qed.
+
+(* ------------------------------------------------------------------ *)
+(* C18 over the translated functions                                    *)
+(* ------------------------------------------------------------------ *)
+
+(* a trainer whose grammar entries have no 'keyspace_cache' yet *)
+Lemma krel_nil : krel [] [].
+Proof. intros ip k lvl. reflexivity. Qed.
+
+(* nested dicts that hold what some cache reachable from the empty one holds *)
+Definition kreachable (T : ttab) (kc : kcache) : Prop := exists c, reachable T c /\ krel kc c.
+
+Lemma kreachable_nil T : kreachable T [].
+Proof. exists []. split; [constructor | exact krel_nil]. Qed.
+
+(* the translated _rec_calc_keyspace returns the number of completions, whatever was cached before *)
+Theorem gen_rec_keyspace_counts T : wf_ttab T -> levels_le guesser_max_level T -> closedb T = true ->
+  forall kc, kreachable T kc -> forall fuel k lvl ip e, 1 <= k -> k <= fuel -> find_entry ip (tt_grammar T) = Some e ->
+  exists kc',
+    py_rec_calc_keyspace fuel T kc (Z.of_nat lvl) (Z.of_nat k) ip =
+      Ok (Z.of_nat (length (completions (gview T) k ip (Z.of_nat lvl))), kc') /\
+    kreachable T kc'.
+Proof.
+  intros WF HL CL kc (c & Hc & HR) fuel k lvl ip e Hk Hf HE.
+  destruct (gen_rec_calc_keyspace_eq T CL k Hk fuel kc c lvl ip e Hf HE HR) as (kc' & E & R).
+  exists kc'. rewrite E, (ol_rec_keyspace_counts T WF HL c Hc k lvl ip Hk), nat_N_Z. split; [reflexivity|].
+  exists (snd (rec_ks T k c lvl ip)). split; [now constructor | exact R].
+Qed.
+
+(* the translated calc_omen_keyspace: every listed level whose value did not trigger the
+   cut-off holds the number of strings the generator must emit at that level (pairwise
+   distinct); the listed levels are positive; the cache left behind is again reachable,
+   so the statement applies to the next call on the same trainer object *)
+Theorem gen_keyspace_translated T : wf_ttab T -> levels_le guesser_max_level T -> closedb T = true ->
+  forall kc, kreachable T kc -> forall fuel max_level maxks, length (tt_ln T) < fuel ->
+  exists cnt kc',
+    py_calc_omen_keyspace fuel T kc (Z.of_nat max_level) (Z.of_N maxks) = Ok (cnt, kc') /\
+    kreachable T kc' /\
+    forall l v, In (l, v) cnt -> (v <= Z.of_N maxks)%Z ->
+      (1 <= l <= Z.of_nat max_level)%Z /\
+      v = Z.of_nat (length (level_strings (gview T) l)) /\ NoDup (level_strings (gview T) l).
+Proof.
+  intros WF HL CL kc (c & Hc & HR) fuel ml maxks Hf.
+  destruct (gen_calc_omen_keyspace_eq T ml maxks fuel kc c CL Hf HR) as (kc' & E & R).
+  eexists. exists kc'. split; [exact E|]. split.
+  - eexists. split; [|exact R]. now constructor.
+  - intros l v HI Hv. unfold counter_of in HI. apply in_map_iff in HI. destruct HI as ([L v'] & EQ & HI).
+    cbn [fst snd] in EQ. inversion EQ; subst l v. clear EQ.
+    destruct (ol_keyspace T WF HL c Hc ml maxks L v' HI ltac:(lia)) as [E1 E2].
+    split; [|split; [rewrite E1; apply nat_N_Z | exact E2]].
+    unfold calc_keyspace in HI. apply ks_done_range in HI. destruct HI as [[]|HI]. apply in_seq in HI. lia.
+Qed.
+
+(* the first call, on a freshly trained object, with run_trainer's default bounds *)
+Corollary gen_keyspace_translated_fresh T : wf_ttab T -> levels_le guesser_max_level T -> closedb T = true ->
+  forall fuel, length (tt_ln T) < fuel ->
+  exists cnt kc',
+    py_calc_omen_keyspace fuel T [] 18 10000000000 = Ok (cnt, kc') /\
+    forall l v, In (l, v) cnt -> (v <= 10000000000)%Z ->
+      v = Z.of_nat (length (level_strings (gview T) l)) /\ NoDup (level_strings (gview T) l).
+Proof.
+  intros WF HL CL fuel Hf.
+  destruct (gen_keyspace_translated T WF HL CL [] (kreachable_nil T) fuel 18 10000000000%N Hf) as (cnt & kc' & E & _ & H).
+  exists cnt, kc'. split; [exact E|]. intros l v HI Hv. now destruct (H l v HI Hv) as (_ & H1 & H2).
+Qed.
+
+(* the hypotheses are satisfiable and the translated functions run: the witness table of C18 *)
+Example gen_keyspace_example :
+  wf_ttab T_r9 /\ levels_le guesser_max_level T_r9 /\ closedb T_r9 = true /\
+  (exists kc', py_calc_omen_keyspace 5 T_r9 [] 18 10000000000 =
+     Ok ([(1, 1); (2, 0); (3, 0); (4, 0); (5, 0); (6, 0); (7, 0); (8, 0); (9, 0); (10, 2); (11, 1);
+          (12, 0); (13, 0); (14, 0); (15, 0); (16, 0); (17, 0); (18, 0)]%Z, kc')) /\
+  (exists kc', py_calc_omen_keyspace 5 T_r9 [] 18 0 = Ok ([(1, 1)]%Z, kc')) /\
+  fst (match py_rec_calc_keyspace 5 T_r9 [] 0 2 [98%N] with Ok r => r | Raise _ => (-1, [])%Z end) = 1%Z.
+Proof.
+  split; [apply T_r9_wf|]. split; [apply T_r9_wf|]. split; [exact T_r9_closed|].
+  split; [eexists; vm_compute; reflexivity|]. split; [eexists; vm_compute; reflexivity|]. vm_compute. reflexivity.
 Qed.
